@@ -765,8 +765,18 @@ def r7_none_frame(L, repo):
             raise AnalysisError("Transceiver.%s vanished" % mname)
         L.fn(FT_, "Transceiver." + mname)
         P = params(m)[1]
-        atoms, rows = _call_rows(m, lambda t, P=P: (".resolve(%s)" % P) in t)
-        res = [a for a, hit in rows if hit]
+        from cmdfold import fold_freq_getter
+        fo = fold_freq_getter(repo, mname)
+        if fo is not None:
+            # complete fold over the getter's state space (hopping configured or not), helpers included
+            res = []
+            if fo["hopping"][1]:
+                res.append({"None is self.fh": False})
+            if fo["fixed"][1]:
+                res = [{}]
+        else:
+            atoms, rows = _call_rows(m, lambda t, P=P: (".resolve(%s)" % P) in t)
+            res = [a for a, hit in rows if hit]
         if not res:
             raise AnalysisError("Transceiver.%s: no path resolves hopping by frame number" % mname)
         need[mname] = res
